@@ -255,4 +255,88 @@ theorem wrappers_frame (fx : Fixes) (L : Learner) (inner : State) (seed : Int) (
       runOne fx L (if w then initState seed else inner) ((h.filter (fun x => x.1 == w)).map (·.2)) :=
   wrappers_frame' fx L h inner (rewrap inner seed) w
 
+
+/-! ### Phase 3: has_score, wrappers switched between batched and unbatched calls, `==` on cached action sets -/
+
+/-- **has_score_iff.**  `SafeLearner.has_score` probes `learner.score(None,None,None)` and answers `"score" not in str(ex)`.
+For a learner without a `score` attribute (CPython's AttributeError text, any class name), one that inherits
+`Learner.score` (NotImplementedError text), or one that implements `score`: has_score is true exactly for the implementing
+ones - PROVIDED the exception an implemented score raises on the probe does not mention "score" in its text. -/
+theorem has_score_iff (k : ScoreKind)
+    (hclean : ∀ f, k = .implemented (.raises f) → strContains f.msg "score" = false) :
+    hasScore (probeOf k) = true ↔ ∃ p, k = .implemented p :=
+  has_score_iff' k hclean
+
+example : ∀ f, ScoreKind.implemented (.raises ⟨false, "'NoneType' object is not iterable"⟩) = .implemented (.raises f) →
+    strContains f.msg "score" = false := by
+  intro f h; cases h; decide
+
+/-- the condition is necessary: an implemented score whose probe call fails inside with a text mentioning "score" is
+reported as absent -/
+theorem has_score_counterexample :
+    hasScore (probeOf (.implemented (.raises ⟨true, "'NoneType' object has no attribute 'score_table'"⟩))) = false :=
+  has_score_counterexample'
+
+/-- the error paths of `SafeLearner.score` depend on the exception text in the same way: an AttributeError raised inside an
+implemented score whose text contains `'score'` (quotes included) becomes CobaException "not implemented"; other
+AttributeErrors and other exceptions pass through unchanged -/
+theorem score_error_paths :
+    scoreRaises ⟨true, "'Model' object has no attribute 'score'"⟩ = .coba ∧
+    scoreRaises ⟨true, "'NoneType' object has no attribute 'score_table'"⟩ = .attr ∧
+    scoreRaises ⟨false, "'score' went wrong"⟩ = .learner :=
+  score_error_paths'
+
+/- mixed_history_roundtrip does NOT hold: the layout / call style memoised on a wrapper's first call is kept when the
+   wrapper is later handed the other kind of call.  What the code does is in the model (`parse`, `safeCall`) and is compared
+   with the real code on generated mixed histories; the four witnesses record exactly where it breaks:
+   theorem mixed_history_roundtrip : HistDelivers … (for histories mixing `.single` and `.batch`)   -- false -/
+
+/-- (1) unbatched call, then a row-major batch of bare actions: the whole answer list comes back as ONE action, silently -/
+theorem mixed_unbatched_then_batch_counterexample :
+    obsRun (run Fixes.all (scripted { fmt := .A, kw := false, layout := .row } (exPol (fun i => i) (fun _ => 0) 2)) (initState 1)
+      [.single (.int 0) mixActs, .batch (ctxs 2) [mixActs, mixActs]]) = .ok [(true, 2, false), (false, 2, false)] :=
+  mixed_unbatched_then_batch_counterexample'
+
+/-- (2) … with (action, prob) rows the first ROW is returned as the action and the second ROW as its probability -/
+theorem mixed_unbatched_then_batch_AP_counterexample :
+    obsRun (run Fixes.all (scripted { fmt := .AP, kw := false, layout := .row } (exPol (fun i => i) (fun _ => 0) 2)) (initState 1)
+      [.single (.int 0) mixActs, .batch (ctxs 2) [mixActs, mixActs]]) = .ok [(true, 2, false), (false, 2, true)] :=
+  mixed_unbatched_then_batch_AP_counterexample'
+
+/-- (3) … and a learner that cannot batch is handed the batch directly (memo 1: no per-row fallback any more) -/
+theorem mixed_no_fallback_counterexample :
+    errOf (run Fixes.all (scripted { fmt := .AP, kw := false, layout := .single } (exPol (fun i => i) (fun _ => 0) 2)) (initState 1)
+      [.single (.int 0) mixActs, .batch (ctxs 2) [mixActs, mixActs]]) = some .learner :=
+  mixed_no_fallback_counterexample'
+
+/-- (4) batched call first, then an unbatched one: the single answer is parsed as a row-major batch -/
+theorem mixed_batch_then_unbatched_counterexample :
+    obsRun (run Fixes.all (scripted { fmt := .A, kw := false, layout := .row } (exPol (fun i => i) (fun _ => 0) 2)) (initState 1)
+      [.batch (ctxs 2) [mixActs, mixActs], .single (.int 1) mixActs]) = .ok [(false, 2, true), (true, 2, true)] ∧
+    errOf (run Fixes.all (scripted { fmt := .AP, kw := false, layout := .row } (exPol (fun i => i) (fun _ => 0) 2)) (initState 1)
+      [.batch (ctxs 2) [mixActs, mixActs], .single (.int 1) mixActs]) = some .type :=
+  mixed_batch_then_unbatched_counterexample'
+
+/-- **cached action sets.**  `predict` keeps the float copies when `_prev_actions != actions` is False, i.e. when the new
+action list `==` the previous one (Python `==`, `pyEq`).  Then the learner is given, position by position, an object that
+`==` the newly offered action: the copy compares (as left operand) exactly like the action it replaced
+(`pyEq_makeSafe_left`), so no transitivity of `==` is needed. -/
+theorem cached_actions_equal (r : Nat) (prev as : List PyVal) (h : pyEq (Acts.single prev).toPy (Acts.single as).toPy = true) :
+    List.Forall₂ (fun s a => pyEq s a = true) (safeRow r prev) as :=
+  cached_actions_equal' r prev as h
+
+example : pyEq (Acts.single [.int 0, .bool true, .str (.ext 1) "a"]).toPy (Acts.single [.bool false, .flt (.ext 2) 1, .str (.ext 3) "a"]).toPy = true := by
+  decide
+
+theorem pyEq_makeSafe_left (k : Nat) (x y : PyVal) : pyEq (makeSafe k x) y = pyEq x y := pyEq_makeSafe_left' k x y
+
+/-- on scalars (None, bool, int, float as exact rational - the model has no nan -, str) Python's `==` is reflexive,
+symmetric and transitive (1 == 1.0 == True are one class); nan (irreflexive) is outside the model and pinned by (B) cases -/
+theorem pyEq_scalar_equiv (x y z : PyVal) (hx : isScalar x = true) (hy : isScalar y = true) (hz : isScalar z = true) :
+    pyEq x x = true ∧ (pyEq x y = pyEq y x) ∧ (pyEq x y = true → pyEq y z = true → pyEq x z = true) :=
+  pyEq_scalar_equiv' x y z hx hy hz
+
+/- open: `pyEq` as an equivalence on nested values (tuples/lists/dicts of scalars with duplicate-free keys) -
+   theorem pyEq_equiv_partial … ; only the scalar fragment and the float-copy step above are proved. -/
+
 end Coba.C15
